@@ -50,20 +50,21 @@ contract(
 contract(
     "liquid2.builtin.filters.string:slice_",
     props=["C19", "C02", "C01"],
-    partial_domain="string input only: the list branch (`return list(val[_start:end])`) is outside this domain",
-    params={"val": Str, "start": Union(Int, Str, Float, NoneT), "length": Union(Int, Str, Float, NoneT)},
+    params={"val": Union(Str, ListOf("any"), Const(range(2, 6), "range(2,6)")), "start": Union(Int, Str, Float, NoneT), "length": Union(Int, Str, Float, NoneT)},
     globals_={"MAX_STR_INT": Int},
     # strings are shorter than 2**62 characters (a CPython object cannot be larger than sys.maxsize bytes)
     pre=["MAX_STR_INT == 0 or MAX_STR_INT >= 640", "len(val) < 4611686018427387904"],
     inline=["liquid2.builtin.filters.string:_slice_arg"],
     post=[
         # an offset inside the string and a non-negative length: exactly that window
-        "implies(isinstance(start, int) and isinstance(length, int) and 0 <= start and start <= len(val) and length >= 0 and start + length <= len(val), result == val[start:start + length])",
-        "implies(isinstance(start, int) and isinstance(length, int) and 0 <= start and start <= len(val) and length >= 0 and start + length > len(val), result == val[start:])",
+        "implies(isinstance(val, str) and isinstance(start, int) and isinstance(length, int) and 0 <= start and start <= len(val) and length >= 0 and start + length <= len(val), result == val[start:start + length])",
+        "implies(isinstance(val, str) and isinstance(start, int) and isinstance(length, int) and 0 <= start and start <= len(val) and length >= 0 and start + length > len(val), result == val[start:])",
         # a negative offset counts from the end; a window that would run past the end stops there
-        "implies(isinstance(start, int) and isinstance(length, int) and start < 0 and -start <= len(val) and length >= 0 and start + length < 0, result == val[len(val) + start:len(val) + start + length])",
-        "implies(isinstance(start, int) and isinstance(length, int) and start < 0 and -start <= len(val) and start + length >= 0, result == val[len(val) + start:])",
-        "implies(isinstance(start, int) and isinstance(length, int) and length < 0 and start >= 0, result == '')",
+        "implies(isinstance(val, str) and isinstance(start, int) and isinstance(length, int) and start < 0 and -start <= len(val) and length >= 0 and start + length < 0, result == val[len(val) + start:len(val) + start + length])",
+        "implies(isinstance(val, str) and isinstance(start, int) and isinstance(length, int) and start < 0 and -start <= len(val) and start + length >= 0, result == val[len(val) + start:])",
+        "implies(isinstance(val, str) and isinstance(start, int) and isinstance(length, int) and length < 0 and start >= 0, result == '')",
+        # an array (or a range) in, an array out - never a range object, whose string form is `a..b`
+        "implies(not isinstance(val, str), isinstance(result, list))",
     ],
     raises={"LiquidTypeError": None, "LiquidValueError": None},     # floats, nil, non-numeric strings: a Liquid error, not TypeError/ValueError
 )
